@@ -16,6 +16,11 @@ KINDS = ["reg", "del", "delx", "litdel", "sock", "pipe", "anon", "anon2", "chr",
 FLAGBITS = [os.O_APPEND, os.O_CREAT, os.O_TRUNC, os.O_CLOEXEC, os.O_NONBLOCK, 0o100000]
 POS = [0, 1, 2 ** 31 - 1, 2 ** 31, 2 ** 32, 2 ** 63 - 1]
 MODES5 = {"r", "w", "a", "r+", "a+"}
+ARCH_FLAGS = {
+    "mips": {"O_APPEND": 0x8, "O_NONBLOCK": 0x80, "O_CREAT": 0x100, "O_TRUNC": 0x200, "O_EXCL": 0x400, "O_CLOEXEC": 0o2000000},
+    "alpha": {"O_APPEND": 0o10, "O_NONBLOCK": 0o4, "O_CREAT": 0o1000, "O_TRUNC": 0o2000, "O_EXCL": 0o4000, "O_CLOEXEC": 0o10000000},
+    "sparc": {"O_APPEND": 0x8, "O_NONBLOCK": 0x4000, "O_CREAT": 0x200, "O_TRUNC": 0x400, "O_EXCL": 0x800, "O_CLOEXEC": 0x400000},
+}
 
 
 def target(kind, i):
@@ -135,6 +140,27 @@ def _run_case(case, st):
         n = outcome(pr.num_fds)
         if n != ("ok", len(table)):
             bad.append(("num_fds", "num_fds() -> %r, table has %d" % (n, len(table))))
+    elif k == "archflags":
+        # a Linux port with its own open(2) flag numbering: fdinfo shows THAT port's words, os.O_* are that port's constants
+        arch = ARCH_FLAGS[case[1]]
+        w.oflags = dict(arch)
+        try:
+            for acc in (0, 1, 2):
+                for names in ((), ("O_APPEND",), ("O_CREAT", "O_EXCL"), ("O_APPEND", "O_NONBLOCK"), ("O_TRUNC", "O_CREAT")):
+                    word = acc | 0o100000
+                    for nm in names:
+                        word |= arch[nm]
+                    set_table(p, {3: ("reg", 7, word)})
+                    want = {0: "r", 1: "w", 2: "r+"}[acc]
+                    if "O_APPEND" in names:
+                        want = {"r": "r", "w": "a", "r+": "a+"}[want]
+                    got = outcome(pr.open_files)
+                    ok = got[0] == "ok" and len(got[1]) == 1 and got[1][0].mode == want and got[1][0].flags == word
+                    if not ok:
+                        bad.append(("open_files:mode:other-flag-numbering", "%s: flags %#o (%s, access %d): got %r, expected mode %r"
+                                    % (case[1], word, "+".join(names) or "-", acc, freeze(got), want)))
+        finally:
+            w.oflags = None
     elif k == "io":
         p.io_raw = case[1].encode("latin-1")
         got = outcome(pr.io_counters)
@@ -252,6 +278,8 @@ def build_cases(thorough):
         for combo in itertools.product(kinds, repeat=n):
             cases.append(("table", {str(3 + i): [k, 11 * (i + 1), [0o100000, 0o100001, 0o102002, 0o101][i % 4]] for i, k in enumerate(combo)}))
     base = ["rchar: 101", "wchar: 102", "syscr: 103", "syscw: 104", "read_bytes: 105", "write_bytes: 106", "cancelled_write_bytes: 107"]
+    for arch_ in ARCH_FLAGS:
+        cases.append(("archflags", arch_))
     cases.append(("io", "\n".join(base) + "\n", "plain"))
     extras = {"blank": "", "no-separator": "garbage", "unknown-key": "new_counter: 5", "two-separators": "a: b: c",
               "spaces": "   "}
